@@ -127,3 +127,45 @@ func Harness_C10_tenant() {
 		v.Cover("tenant")
 	}
 }
+
+// Harness_C10_claims_to_permission: from the endpoint list in a verified JWT
+// to what the resulting token permits. The verifier must hand the claim list
+// on unchanged (a list made only of blank or odd entries is still a list: it
+// must not turn into "no list", which permits everything).
+func Harness_C10_claims_to_permission() {
+	v.Tag("c09-jwt")
+	N := v.Param("N", 2)
+	conf := &LoadedConfig{HMACSecretKey: []byte("secret")}
+	vValidMethods, vValidMethodsSet, vAudience, vIssuer = nil, false, nil, nil
+	vKeyReturned, vKeyErr, vKeyFuncCalls = nil, nil, 0
+	vAlg = "HS256"
+	vParseOutcome = 0
+	vClaimExpiry = nil
+	n := v.Choose("claims", N+1)
+	vClaimEndpoints = nil
+	for i := 0; i < n; i++ {
+		// symbolic entries include the empty string
+		vClaimEndpoints = append(vClaimEndpoints, v.Str("claim"))
+	}
+	tok, err := NewJWTVerifier(conf).Verify("t")
+	v.Assert("C10/claims/verified", err == nil && tok != nil)
+	v.Assert("C10/claims/list-handed-on-unchanged", len(tok.Endpoints) == n)
+	for i := range tok.Endpoints {
+		if i < n {
+			v.Assert("C10/claims/list-handed-on-unchanged", tok.Endpoints[i] == vClaimEndpoints[i])
+		}
+	}
+	target := v.Str("target")
+	want := n == 0
+	for _, e := range vClaimEndpoints {
+		want = v.Or(want, e == target)
+	}
+	v.Assert("C10/claims/permits-exactly-the-listed", tok.EndpointPermitted(target) == want)
+	if n > 0 {
+		v.Cover("restricted-token")
+	} else {
+		v.Cover("unrestricted-token")
+	}
+}
+
+var _ = errors.New
